@@ -2,7 +2,8 @@
 (* I->S judge for the text-level properties.  Every observation carries the bytes of the   *)
 (* source (srcb) and of what darklua wrote (outb); both are lexed by the reference lexer   *)
 (* LuaLex and the clause of the property selected by `kind` is evaluated:                  *)
-(*   identity         (C03) out = in, byte for byte                                         *)
+(*   identity         (C03) out = in, byte for byte (inside the type regions `tspans`:      *)
+(*                          up to parentheses and spacing)                                  *)
 (*   remove_comments  (C18) same code tokens; exactly the comments not matching `except`    *)
 (*                          disappear                                                       *)
 (*   remove_spaces    (C18) same code tokens; same comments                                 *)
@@ -60,8 +61,22 @@ JudgeMarkers(o) ==
    shift |-> IF first = 0 THEN 0 ELSE lines[first] - DigitsVal(c[first].v, 2, 0),
    ok |-> okrun /\ b.ok /\ off = {}, ncode |-> Cardinality(ms), ncomments |-> IF first = 0 THEN 0 ELSE DigitsVal(c[first].v, 2, 0)]
 
+\* C03, weaker clause: `tspans` lists the byte ranges of the source that are type annotations; there (and only there)
+\* parentheses and spacing may be added or removed.  MaskedEq walks both texts: equal bytes are consumed together, a soft
+\* byte of the source inside a region may be skipped, a soft byte of the output may be skipped while the source position
+\* is inside (or just behind) a region; anything else is a difference.
+Soft == {32, 9, 10, 13, 40, 41}
+InSpan(o, p) == \E k \in 1..Len(o.tspans) : o.tspans[k][1] <= p /\ p <= o.tspans[k][2]
+RECURSIVE MaskedEq(_, _, _)
+MaskedEq(o, p, q) ==
+  LET a == o.srcb IN LET b == o.outb IN
+  IF p > Len(a) /\ q > Len(b) THEN TRUE
+  ELSE IF p <= Len(a) /\ q <= Len(b) /\ a[p] = b[q] THEN MaskedEq(o, p + 1, q + 1)
+  ELSE IF p <= Len(a) /\ a[p] \in Soft /\ InSpan(o, p) THEN MaskedEq(o, p + 1, q)
+  ELSE IF q <= Len(b) /\ b[q] \in Soft /\ (InSpan(o, p) \/ InSpan(o, p - 1)) THEN MaskedEq(o, p, q + 1)
+  ELSE FALSE
 JudgeIdentity(o) ==
-  LET same == o.status = "ok" /\ o.srcb = o.outb IN
+  LET same == o.status = "ok" /\ (o.srcb = o.outb \/ (Len(o.tspans) > 0 /\ MaskedEq(o, 1, 1))) IN
   [id |-> o.id, kind |-> o.kind, status |-> o.status, lex_in |-> TRUE, lex_out |-> TRUE, identical |-> same,
    code_equal |-> same, comments_ok |-> same, lines_ok |-> same, shift |-> 0, ok |-> same, ncode |-> 0, ncomments |-> 0]
 JudgeLex(o) ==
